@@ -6,6 +6,7 @@ import Casket.Props.C20
 import Casket.Proofs.HelloSpec
 import Casket.Proofs.HelloPool
 import Casket.Model.FCGIStatus
+import Casket.Proofs.AuthCfg
 /-
 C19 — Bytes from network peers cannot crash handlers or skew what is recorded.
 
@@ -381,5 +382,40 @@ theorem C19_prefix_status_witness :
 example : Casket.FCGIStatus.parseStatus [0xc2, 0xa0] = .ok none := by decide
 example : Casket.FCGIStatus.parseStatus (bytes "404 Not Found") = .ok (some ⟨404, bytes "Not Found"⟩) := by decide
 example : Casket.FCGIStatus.serve (bytes "404 Not Found") = .ok (.wrote 404) := by decide
+
+/-! ### basicauth rules installed through the directive's setup (model `Casket.AuthCfg`, stream c19.authcfg) -/
+
+/-- For EVERY history of configuration loads through the process-wide htpasswd cache (any file contents,
+stamps that change or stay, files that disappear, any rule users) and EVERY Authorization header, a load
+is either refused or installs a handler that answers the request: no rule the setup accepted carries a
+nil password matcher for the peer's chosen user name to reach. -/
+theorem C19_authcfg_never_calls_nil_matcher (auth : Option (Nat × Nat)) (ls : List Casket.AuthCfg.Load)
+    (c : Casket.AuthCfg.Cache) : some Casket.AuthCfg.Outcome.panic ∉ Casket.AuthCfg.run auth ls c :=
+  Casket.AuthCfg.run_never_panics auth ls c
+
+/-- what the setup hands to `Rule.Password` is never nil, cached table or freshly parsed -/
+theorem C19_authcfg_setup_matchers_present (d : Option Casket.AuthCfg.Disk) (us : List Nat)
+    (c : Casket.AuthCfg.Cache) (rs : List Casket.AuthCfg.Rule) (c1 : Casket.AuthCfg.Cache)
+    (h : Casket.AuthCfg.setup d us c = (some rs, c1)) : ∀ r ∈ rs, r.2.isSome = true :=
+  Casket.AuthCfg.setup_matchers_some d us c h
+
+/-- the judge of c19.authcfg accepts every model answer -/
+theorem C19_authcfg_model_verdict_ok (auth : Option (Nat × Nat)) (ls : List Casket.AuthCfg.Load)
+    (c : Casket.AuthCfg.Cache) : Casket.AuthCfg.verdict (Casket.AuthCfg.run auth ls c) = "ok" := by
+  unfold Casket.AuthCfg.verdict
+  rw [if_neg]
+  simp only [List.any_eq_true, decide_eq_true_eq, not_exists, not_and]
+  intro o ho he
+  exact C19_authcfg_never_calls_nil_matcher auth ls c (he ▸ ho)
+
+/-- non-vacuity: the shape of the seeded defect — the second rule's user is missing from a file the
+first rule has already put into the cache — is a REFUSED load in the model, a later load with the user
+present answers 200 for the right password and 401 otherwise; and the witness that the guard matters:
+a rule list with a nil matcher does panic on exactly that user name. -/
+example : Casket.AuthCfg.run (some (1, 7)) [(some ⟨1, [(0, 5)]⟩, [0, 1]), (some ⟨2, [(0, 5), (1, 7)]⟩, [0, 1])] none
+    = [none, some (.code 200)] := by decide
+example : Casket.AuthCfg.run (some (1, 8)) [(some ⟨2, [(0, 5), (1, 7)]⟩, [0, 1])] none = [some (.code 401)] := by decide
+example : Casket.AuthCfg.serve [(0, some 5), (1, none)] (some (1, 7)) = .panic := by decide
+example : Casket.AuthCfg.serve [(0, some 5), (1, none)] (some (0, 5)) = .code 200 := by decide
 
 end Casket.Props.C19
